@@ -185,6 +185,10 @@ func laneTuples(r *c.Rng, ks []laneKind, budget int, nrand int, exhaustive8 bool
 		for a := 0; a < 256; a++ {
 			out = append(out, []uint64{uint64(a)})
 		}
+		// plus mixed vectors: 16 consecutive values share their sign bit, which says little about bitmask, narrow, extadd
+		for i := 0; i < nrand+16*len(ks[0].set.core); i++ {
+			out = append(out, []uint64{randLane(r, ks[0])})
+		}
 		return out
 	case n == 1 && plain(ks[0], 16) && exhaustive8:
 		for a := 0; a < 65536; a++ {
